@@ -850,3 +850,13 @@ def _stopper_variant(kind, id, op, rule=None):
 
 _stopper_variant("silent", "c16-benign-early-stopping-object", ">")
 _stopper_variant("fire", "c16-early-stopping-object-stops-one-epoch-early", ">=", "C16.")
+_VF_OLD = ("        losses.append(loss.item())\n        keys.set_postfix({\"loss\": loss.item()})\n"
+           "        if loss.item() == min(losses):\n            best_params = params  # The loss is evaluated before the update\n")
+CORPUS.append(dict(id="c16-benign-variational-running-minimum-from-inf", props=["C16"], expect="silent", rule=None, edits=[
+    (_VF, "    best_params = params\n    keys = tqdm(", "    best_params = params\n    best_loss = float(\"inf\")\n    keys = tqdm("),
+    (_VF, _VF_OLD, "        loss_val = loss.item()\n        losses.append(loss_val)\n        keys.set_postfix({\"loss\": loss_val})\n"
+                   "        if loss_val < best_loss:\n            best_loss = loss_val\n            best_params = params\n")]))
+CORPUS.append(dict(id="c16-variational-running-minimum-never-updated", props=["C16"], expect="fire", rule="C16.", edits=[
+    (_VF, "    best_params = params\n    keys = tqdm(", "    best_params = params\n    best_loss = float(\"inf\")\n    keys = tqdm("),
+    (_VF, _VF_OLD, "        loss_val = loss.item()\n        losses.append(loss_val)\n        keys.set_postfix({\"loss\": loss_val})\n"
+                   "        if loss_val < best_loss:\n            best_params = params\n")]))
